@@ -266,7 +266,7 @@ func runCheck(eng *Engine, start time.Time) int {
 					timeout = tv
 				}
 			}
-			if j.ob.Kind == "canary" {
+			if strings.HasPrefix(j.ob.Kind, "canary") {
 				// a reachability witness either comes quickly or (with quantified assumptions) not at all
 				lim := 15
 				if *flagTier == "thorough" {
@@ -276,7 +276,7 @@ func runCheck(eng *Engine, start time.Time) int {
 					timeout = lim
 				}
 			}
-			if len(j.iz3) > 0 && j.ob.Kind != "canary" {
+			if len(j.iz3) > 0 && !strings.HasPrefix(j.ob.Kind, "canary") {
 				// a short attempt on the original (quantified) VC first: some goals are immediate for one solver there
 				// while their instantiated variants are hard for all of them
 				pre := 3
